@@ -195,7 +195,8 @@ def run_case(case, obs=None):
         # ... and gets reported by Python's own machinery: traceback formatting, logging with exc_info, notes, attribute probing
         import logging
         import traceback
-        for how, fn in (("traceback.format_exception", lambda: "".join(traceback.format_exception(type(e), e, None))),
+        for how, fn in (("repr()", lambda: repr(e)), ("'%r' formatting", lambda: "%r" % (e,)), ("str() of a list holding the error", lambda: str([e])),
+                        ("traceback.format_exception", lambda: "".join(traceback.format_exception(type(e), e, None))),
                         ("hasattr/getattr with a default", lambda: (hasattr(e, "no_such_attribute"), getattr(e, "errno", None))),
                         ("add_note", lambda: e.add_note("seen by the harness")),
                         ("logging with exc_info", lambda: _quiet_logger().error("sense", exc_info=(type(e), e, None)))):
